@@ -69,3 +69,7 @@ impl MetaMap {
         &self.bitvec[start..end]
     }
 }
+
+#[cfg(kani)]
+#[path = "/verif/units/kani/bitbox_meta_map.rs"]
+mod verif_kani;
